@@ -54,6 +54,34 @@ fn gen_case_indexed_raw(prop: &str, rng: &mut Rng, tier: Tier, run: u64) -> Case
             return crate::props_sort::gen_c08_with(rng, tier, true);
         }
     }
+    if prop == "C17" && run < if tier == Tier::Quick { 1 } else { 3 } {
+        // hook-free sorter at the shipped defaults (1 GiB budget, growing buffer): ~150 MB of inserts take
+        // the in-memory buffer through every doubling up to 256 MiB
+        use crate::case::*;
+        return Case::Sort(SortCase {
+            inserts: Entries::Counter { n: rng.range(1_300_000, 1_600_000), width: 8, start: 1, stride: 7919, vlen: *rng.pick(&[90u32, 100, 110]) },
+            knobs: SortKnobs {
+                raw_threshold: None,
+                threshold_req: None,
+                init_cap: None,
+                allow_realloc: true,
+                max_nb_chunks: None,
+                unstable: rng.chance(1, 2),
+                parallel: false,
+                chunk_codec: None,
+                chunk_level: None,
+                block_size: None,
+                interval: None,
+                levels: None,
+                creator: 0,
+            },
+            alt_knobs: vec![],
+            mf: crate::env::MergeKind::First,
+            consume: 0,
+            out_knobs: Knobs::default_knobs(),
+            env: crate::env::EnvPlan::whole(),
+        });
+    }
     if prop == "C07" && run < if tier == Tier::Quick { 2 } else { 6 } {
         // hook-free sorter at the shipped thresholds: 10 MiB minimum budget, 128 KiB initial buffer,
         // ~16 MB of inserts over 65536 distinct keys (so chunks overlap and values are merged)
